@@ -24,16 +24,20 @@ Proof. exact init_once_lemma. Qed.
 
 (* ... and when the run ends in an error, what had run until then ran at most once, is reachable,
    and ran after its dependencies *)
-Theorem C19_at_most_once_on_error : forall fs entry fuel e tr,
-  run fs entry fuel = Err e tr ->
-  let t := map ev_file tr in
+Theorem C19_at_most_once_on_error : forall fs entry fuel e s,
+  run fs entry fuel = Err e s ->
+  let t := map ev_file (events s) in
   NoDup t /\ (forall f, In f t -> reachable fs entry f) /\ postorder fs entry t.
 Proof. exact at_most_once_on_error_lemma. Qed.
 
 (* REPL: over a whole session (any number of inputs, each importing whatever it likes under whatever
-   spelling) every module's top level runs at most once, and no input makes the loader diverge.
+   spelling, SOME OF THEM FAILING: missing module, module that does not compile, module whose top
+   level raises, private symbol, cycle, conflict) every module's top level runs to completion at most
+   once, and no input makes the loader diverge.  mtrace_of = the module top levels that completed.
    (The invariant behind this is the program-independent part of the one used above; it is kept
-   across inputs because the loader's memo now lives as long as the session, KF-C19-9.) *)
+   across inputs because the loader's memo lives as long as the session AND is handed back on the
+   error path too -- memo_restored_on_error is read from driver/src/api/repl.rs by the translator --
+   AND a module that did not complete is forgotten while the error unwinds, KF-C19-9/-10.) *)
 Theorem C19_session_init_once : forall fs root fuel inputs,
   (fuel >= fuel_bound fs)%nat ->
   let rs := run_session fs root fuel inputs (session_start root) in
@@ -142,5 +146,5 @@ Example C19_nonvacuous :
                map ev_file evs = [[19]; [10]; [11]; [12]; [9]]) /\
   clean_b w_cycle6 [] = true /\
   reachable w_cycle6 E9 [11] /\ path_plus w_cycle6 E9 [11] [11] /\
-  (exists tr, run w_cycle6 E9 (fuel_bound w_cycle6) = Err ECircular tr /\ map ev_file tr = [[19]]).
+  (exists tr, run w_cycle6 E9 (fuel_bound w_cycle6) = Err ECircular tr /\ map ev_file (events tr) = [[19]]).
 Proof. exact nonvacuous_lemma. Qed.
